@@ -715,13 +715,65 @@ Proof.
   rewrite IH by (rewrite skipn_length; lia). reflexivity.
 Qed.
 
+Lemma add_block_len (ws : list vec) i (b out : vec) : (i < length ws)%nat -> length out = total ws ->
+  length b = length (nth i ws []) -> length (add_block ws i b out) = total ws.
+Proof.
+  intros Hi Ho Hb. unfold add_block. rewrite !app_length, firstn_length, skipn_length, vadd_len;
+    rewrite ?block_len by assumption; pose proof (offset_total ws i Hi); lia.
+Qed.
+Lemma add_block_inner (ws : list vec) (pw : vec) i (x b out : vec) :
+  (i < length ws)%nat -> length pw = length ws -> length x = total ws -> length out = total ws ->
+  length b = length (nth i ws []) ->
+  cinner (pweights pw ws) x (add_block ws i b out) =
+  cinner (pweights pw ws) x out + nth i pw nzero * cinner (nth i ws []) (block ws i x) b.
+Proof.
+  intros Hi Hl Hx Ho Hb. destruct (pweights_cut ws pw i Hi Hl) as (Wl & Wr & EW & HWl).
+  pose proof (offset_total ws i Hi) as Ti.
+  rewrite (cut3 ws i out Hi Ho) at 2. unfold add_block.
+  rewrite (cut3 ws i x Hi Hx) at 1 2. rewrite EW.
+  assert (HBo : length (block ws i out) = length (nth i ws [])) by (apply block_len; assumption).
+  assert (H1 : length (firstn (offset ws i) x) = length Wl) by (rewrite firstn_length; lia).
+  assert (H2 : length (firstn (offset ws i) out) = length Wl) by (rewrite firstn_length; lia).
+  assert (H3 : length (block ws i x) = length (map (nmul (nth i pw nzero)) (nth i ws [])))
+    by (rewrite map_length; apply block_len; assumption).
+  assert (H4 : length (vadd (block ws i out) b) = length (map (nmul (nth i pw nzero)) (nth i ws [])))
+    by (rewrite map_length, vadd_len; congruence).
+  assert (H5 : length (block ws i out) = length (map (nmul (nth i pw nzero)) (nth i ws [])))
+    by (rewrite map_length; exact HBo).
+  rewrite (cinner_app OK Wl) by assumption. rewrite (cinner_app OK Wl) by assumption.
+  rewrite (cinner_app OK (map (nmul (nth i pw nzero)) (nth i ws []))) by assumption.
+  rewrite (cinner_app OK (map (nmul (nth i pw nzero)) (nth i ws []))) by assumption.
+  rewrite !cinner_scale_w, (cinner_vadd_r OK) by congruence. ring.
+Qed.
+
+(* accumulation: any index list (repetitions allowed) *)
+Lemma put_blocks_acc_inner (ws : list vec) (pw : vec) (x : vec) : forall (idxs : list nat) (y out : vec),
+  length pw = length ws -> length x = total ws -> length out = total ws ->
+  Forall (fun i => (i < length ws)%nat /\ nth i pw nzero = none_) idxs ->
+  length y = length (concat (map (fun i => nth i ws []) idxs)) ->
+  length (put_blocks true ws idxs y out) = total ws /\
+  cinner (pweights pw ws) x (put_blocks true ws idxs y out) =
+  cinner (pweights pw ws) x out + multi_inner ws idxs x y.
+Proof.
+  induction idxs as [|i r IH]; intros y out Hl Hx Ho Hall Hy.
+  - cbn [put_blocks multi_inner]. split; [assumption | ring].
+  - destruct (Forall_inv Hall) as (Hi & Hp). pose proof (Forall_inv_tail Hall) as Hr.
+    cbn [map concat] in Hy. rewrite app_length in Hy. cbn [put_blocks multi_inner].
+    assert (Hb : length (firstn (length (nth i ws [])) y) = length (nth i ws [])) by (rewrite firstn_length; lia).
+    destruct (IH (skipn (length (nth i ws [])) y) (add_block ws i (firstn (length (nth i ws [])) y) out))
+      as (L1 & L2); try assumption.
+    + apply add_block_len; assumption.
+    + rewrite skipn_length. lia.
+    + split; [exact L1|]. rewrite L2, (add_block_inner ws pw i x) by assumption. rewrite Hp. ring.
+Qed.
+(* assignment: distinct indices *)
 Lemma put_blocks_inner (ws : list vec) (pw : vec) (x : vec) : forall (idxs : list nat) (y out : vec),
   NoDup idxs -> length pw = length ws -> length x = total ws -> length out = total ws ->
   Forall (fun i => (i < length ws)%nat /\ nth i pw nzero = none_ /\
                    block ws i out = zeros (length (nth i ws []))) idxs ->
   length y = length (concat (map (fun i => nth i ws []) idxs)) ->
-  length (put_blocks ws idxs y out) = total ws /\
-  cinner (pweights pw ws) x (put_blocks ws idxs y out) =
+  length (put_blocks false ws idxs y out) = total ws /\
+  cinner (pweights pw ws) x (put_blocks false ws idxs y out) =
   cinner (pweights pw ws) x out + multi_inner ws idxs x y.
 Proof.
   induction idxs as [|i r IH]; intros y out Hnd Hl Hx Ho Hall Hy.
@@ -742,9 +794,11 @@ Proof.
     + split; [exact L1|]. rewrite L2, (set_block_inner ws pw i x) by assumption. rewrite Hp. ring.
 Qed.
 
-Lemma leaf_ok_projm (ws : list vec) (pw : vec) (idxs : list nat) : NoDup idxs -> length pw = length ws ->
+(* [acc = true] (list index, accumulating adjoint): ANY index list; [acc = false] (slice, assignment): distinct *)
+Lemma leaf_ok_projm (ws : list vec) (pw : vec) (idxs : list nat) (acc : bool) :
+  (acc = false -> NoDup idxs) -> length pw = length ws ->
   Forall (fun i => (i < length ws)%nat /\ nth i pw nzero = none_) idxs ->
-  leaf_ok (LProjM ws pw idxs).
+  leaf_ok (LProjM ws pw idxs acc).
 Proof.
   intros Hnd Hl Hall. split; [|split; reflexivity]. cbn [leaf_dom leaf_ran leaf_adjoint eval eval_leaf].
   assert (Hlen : length (pweights pw ws) = total ws) by (rewrite pweights_len by assumption; reflexivity).
@@ -756,24 +810,30 @@ Proof.
   assert (Hall' : Forall (fun i => (i < length ws)%nat /\ nth i pw nzero = none_ /\
                      block ws i (zeros (total ws)) = zeros (length (nth i ws []))) idxs).
   { clear -Hall Hz. induction Hall as [|i r [Hi Hp] _ IH]; constructor; auto. }
+  assert (Hput : forall x y, length x = total ws ->
+            length y = length (concat (map (fun i => nth i ws []) idxs)) ->
+            length (put_blocks acc ws idxs y (zeros (total ws))) = total ws /\
+            cinner (pweights pw ws) x (put_blocks acc ws idxs y (zeros (total ws))) =
+            cinner (pweights pw ws) x (zeros (total ws)) + multi_inner ws idxs x y).
+  { intros x y Hx Hy. destruct acc.
+    - apply put_blocks_acc_inner; try assumption; apply zeros_len.
+    - apply put_blocks_inner; try assumption; [apply Hnd; reflexivity | apply zeros_len]. }
   split; [|split]; rewrite ?Hlen.
   - intros x Hx. cbn [eval_leaf]. clear -Hidx Hx. induction Hidx as [|i r Hi _ IH]; [reflexivity|].
     cbn [map concat]. rewrite !app_length, IH, block_len by assumption. reflexivity.
-  - intros y Hy. cbn [eval eval_leaf]. destruct (put_blocks_inner ws pw (zeros (total ws)) idxs y (zeros (total ws))) as (L1 & _);
-      try assumption; try apply zeros_len.
+  - intros y Hy. cbn [eval eval_leaf]. apply (Hput (zeros (total ws)) y); [apply zeros_len | assumption].
   - intros x y Hx Hy. cbn [eval eval_leaf]. rewrite multi_inner_concat by assumption.
-    destruct (put_blocks_inner ws pw x idxs y (zeros (total ws))) as (_ & L2);
-      try assumption; try apply zeros_len.
-    rewrite L2, (cinner_zeros_r OK). ring.
+    destruct (Hput x y Hx Hy) as (_ & L2). rewrite L2, (cinner_zeros_r OK). ring.
 Qed.
-Lemma leaf_ok_projm_adj (ws : list vec) (pw : vec) (idxs : list nat) : NoDup idxs -> length pw = length ws ->
+Lemma leaf_ok_projm_adj (ws : list vec) (pw : vec) (idxs : list nat) (acc : bool) :
+  (acc = false -> NoDup idxs) -> length pw = length ws ->
   Forall (fun i => (i < length ws)%nat /\ nth i pw nzero = none_) idxs ->
   vconj (pweights pw ws) = pweights pw ws ->
   vconj (concat (map (fun i => nth i ws []) idxs)) = concat (map (fun i => nth i ws []) idxs) ->
-  leaf_ok (LProjMAdj ws pw idxs).
+  leaf_ok (LProjMAdj ws pw idxs acc).
 Proof.
   intros Hnd Hl Hall Hr1 Hr2. split; [|split; reflexivity]. cbn [leaf_dom leaf_ran leaf_adjoint].
-  destruct (leaf_ok_projm ws pw idxs Hnd Hl Hall) as (Hq & _). cbn [leaf_dom leaf_ran leaf_adjoint] in Hq.
+  destruct (leaf_ok_projm ws pw idxs acc Hnd Hl Hall) as (Hq & _). cbn [leaf_dom leaf_ran leaf_adjoint] in Hq.
   apply adj_pair_sym; assumption.
 Qed.
 End Leaf.
